@@ -16,6 +16,9 @@ func runThoroughExtras(r *Run, def *propertyDef, repo, tags string) {
 		{"GOOS=windows", "", []string{"GOOS=windows", "CGO_ENABLED=0"}},
 	}
 	var done []string
+	// the whole-program VTA call graph is built for the default configuration only; the other
+	// configurations differ in a handful of build-tagged files and use the static call graph
+	fullSSABodies = false
 	for _, c := range configs {
 		p, err := Load(repo, c.tags, c.env...)
 		if err != nil {
